@@ -169,6 +169,13 @@ def pair_mods():
     out.append([dele("b0", 0, 2)])
     out.append([ins("b2", 2, "mov")])
     out.append([ins("b0", 0, "label"), dele("b0", 0, 1)])
+    # a later patch names the label of a block that an earlier modification deleted, split or joined
+    out.append([dele("b1", 0, 3), ins("b2", 1, "jmp:s1")])
+    out.append([dele("b1", 0, 3), ins("b2", 1, "lea:s1")])
+    out.append([dele("b0", 0, 2), ins("b1", 1, "call:s0")])
+    out.append([ins("b1", 1, "label"), ins("b2", 1, "jmp:e1")])
+    out.append([dele("b1", 0, 1), ins("b2", 1, "jmp:s1")])
+    out.append([dele("b1", 2, 3), ins("b2", 1, "lea:e1")])
     return out
 
 
